@@ -154,18 +154,84 @@ def clone_labeling(rng: random.Random, f, alphabet, *, tries=30):
     return None
 
 
+def warm_queries(t, typed=False):
+    """Calls a battery of read-only functions on the tree and every node and throws the results away.  Run before
+    a mutating prelude, this makes any memo / cache inside the library hold pre-mutation answers."""
+    def q(fn):
+        try:
+            r = fn()
+            if r is not None and not isinstance(r, (str, int, bool, list, tuple, dict)):
+                try:
+                    for i, _ in enumerate(r):
+                        if i > 200:
+                            break
+                except TypeError:
+                    pass
+        except Exception:
+            pass
+
+    q(lambda: len(t)); q(lambda: t.count); q(lambda: t.count_unique); q(lambda: bool(t)); q(lambda: t.first_child()); q(lambda: t.last_child())
+    q(lambda: t.format()); q(lambda: t.to_dict_list()); q(lambda: list(t)); q(lambda: t.calc_height()); q(lambda: repr(t))
+    q(lambda: list(t.to_dot()))
+    if typed:
+        q(lambda: list(t.iter_by_type("ka"))); q(lambda: t.first_child(kind=None)); q(lambda: t.last_child(kind=None))
+    for n in list(t):
+        for fn in (lambda: n.children, lambda: n.first_child(), lambda: n.last_child(), lambda: n.first_sibling(), lambda: n.last_sibling(),
+                   lambda: n.prev_sibling(), lambda: n.next_sibling(), lambda: n.get_siblings(), lambda: n.get_siblings(add_self=True),
+                   lambda: n.get_index(), lambda: n.depth(), lambda: n.calc_depth(), lambda: n.calc_height(), lambda: n.get_parent_list(), lambda: n.path,
+                   lambda: n.get_clones(), lambda: n.is_clone(), lambda: n.has_children(), lambda: n.is_leaf(), lambda: n.is_top(),
+                   lambda: n.count_descendants(), lambda: t.find_all(n.data), lambda: t.find_first(data_id=n.data_id), lambda: n.data in t,
+                   lambda: n.format(), lambda: repr(n), lambda: n.name, lambda: list(n), lambda: n.get_top(), lambda: n.is_first_sibling(),
+                   lambda: n.is_last_sibling(), lambda: t[n.node_id]):
+            q(fn)
+        if typed:
+            k = getattr(n, "kind", None)
+            for fn in (lambda: n.get_children(kind=k), lambda: n.get_children(kind=None), lambda: n.first_child(kind=k), lambda: n.last_child(kind=k),
+                       lambda: n.first_sibling(any_kind=True), lambda: n.last_sibling(any_kind=True), lambda: n.prev_sibling(any_kind=True),
+                       lambda: n.next_sibling(any_kind=True), lambda: n.get_siblings(any_kind=True), lambda: n.get_index(any_kind=True),
+                       lambda: n.has_children(kind=k), lambda: n.has_children(kind=None)):
+                q(fn)
+
+
 def history_prelude(t, nodes, rng, typed):
     """Brings the tree into a state with a history before the queries are evaluated: refused calls
     (collision, invalid position, bad kind, ids on deep copies) and add/remove pairs that return a
     node to being childless.  The oracle re-reads the tree afterwards, so this is sound."""
     kw = {"kind": "kx"} if typed else {}
     live = [n for n in nodes]
+    warm_queries(t, typed)
     for _ in range(4):
         if not live:
             break
         n = rng.choice(live)
         r = rng.random()
         try:
+            if rng.random() < 0.3:
+                r2 = rng.random()
+                holder = rng.choice([t, n, n.parent if n.parent is not None else t])
+                if r2 < 0.35:
+                    keys = {}
+                    (holder.sort if holder is t else holder.sort_children)(key=lambda x: keys.setdefault(id(x), rng.random()), reverse=rng.random() < 0.5)
+                elif r2 < 0.5:
+                    holder.filter(lambda x: True)  # keeps everything
+                elif r2 < 0.7:
+                    c = n.add(rng.choice(live))  # a clone (shallow copy) of another node ...
+                    c.remove()  # ... that goes away again
+                elif r2 < 0.85:
+                    tmp = n.add("tmp-branch", **kw)
+                    tmp.add("tmp-leaf-1", **kw); tmp.add("tmp-leaf-2", **kw)
+                    if rng.random() < 0.5:
+                        tmp.remove(keep_children=True)
+                        n.remove_children() if len(n.children) == 2 and all(str(c.data).startswith("tmp-leaf") for c in n.children) else [
+                            c.remove() for c in list(n.children) if str(c.data).startswith("tmp-leaf")]
+                    else:
+                        tmp.remove()
+                else:
+                    old = n.data
+                    if isinstance(old, str) and not n.is_clone():
+                        n.rename(old + "~")
+                        n.rename(old)
+                continue
             if r < 0.2:
                 n.add(n.data, data_id=n.data_id, **kw) if False else n._parent.add(n.data, data_id=n.data_id, **kw)  # collision
             elif r < 0.35:
@@ -204,6 +270,7 @@ def refused_prelude(t, nodes, rng, typed):
     """Like history_prelude, but shape-neutral: only calls that must be refused and add/remove pairs.
     Used where the oracle is computed from the *built* shape."""
     kw = {"kind": "kx"} if typed else {}
+    warm_queries(t, typed)
     for _ in range(3):
         if not nodes:
             break
